@@ -4,6 +4,7 @@ import Dhcp.Driver.Raw
 import Dhcp.Driver.V4Acc
 import Dhcp.Driver.V4Build
 import Dhcp.Driver.V6
+import Dhcp.Driver.V6Build
 import Dhcp.Driver.Client
 import Dhcp.Driver.Server
 import Dhcp.Driver.Misc
@@ -17,7 +18,7 @@ import Dhcp.Driver.Misc
 open Dhcp.Driver
 
 def families : List (String → List String → Option String) :=
-  [stepV4, stepLabel, stepRaw, stepV4Acc, stepV4Build, stepV6, stepClient, stepServer, stepMisc]
+  [stepV4, stepLabel, stepRaw, stepV4Acc, stepV4Build, stepV6, stepV6Build, stepClient, stepServer, stepMisc]
 
 def step (line : String) : String :=
   match (line.trimAscii.toString.splitOn " ").filter (· ≠ "") with
